@@ -1,6 +1,10 @@
 package exec
 
-import "go/token"
+import (
+	"go/token"
+
+	"golang.org/x/tools/go/ssa"
+)
 
 // initGlobals runs the package initialiser of atree (dependencies' init
 // functions are skipped; their globals start zeroed).
@@ -8,5 +12,80 @@ func (w *Worker) initGlobals() {
 	init := w.eng.Pkg.Func("init")
 	if init != nil {
 		w.callFn(init, nil, token.NoPos)
+	}
+}
+
+// bestEffortInit runs a dependency's package initialiser; an instruction that
+// panics or is unsupported is skipped (its result, if any, becomes the zero
+// value of its type).
+func (w *Worker) bestEffortInit(fn *ssa.Function) {
+	if fn.Blocks == nil {
+		return
+	}
+	fi := w.info(fn)
+	fr := &frame{w: w, fn: fn, fi: fi}
+	fr.env = make([]value, fi.n)
+	for _, l := range fn.Locals {
+		cell := w.zero(deref(l.Type()))
+		fr.env[fi.idx[l]] = &cell
+	}
+	fr.block = fn.Blocks[0]
+	savedStack, savedDepth := len(w.callStack), w.depth
+	steps := 0
+	for fr.block != nil && steps < 100000 {
+		instrs := fr.block.Instrs
+		jumped := false
+		for _, instr := range instrs {
+			steps++
+			if phi, ok := instr.(*ssa.Phi); ok {
+				// init functions have trivial control flow (guard check only)
+				for i, p := range fr.block.Preds {
+					if p == fr.prevBlock {
+						fr.set(phi, fr.get(phi.Edges[i]))
+					}
+				}
+				continue
+			}
+			var k continuation
+			ok := func() (ok bool) {
+				defer func() {
+					if r := recover(); r != nil {
+						switch r := r.(type) {
+						case pathEnd:
+							if r.kind != "unsupported" && r.kind != "bound" {
+								panic(r)
+							}
+						case targetPanic:
+						default:
+							_ = r
+						}
+						w.callStack = w.callStack[:savedStack]
+						w.depth = savedDepth
+						ok = false
+					}
+				}()
+				k = w.visitInstr(fr, instr)
+				return true
+			}()
+			if !ok {
+				if v, isVal := instr.(ssa.Value); isVal {
+					func() {
+						defer func() { recover() }()
+						fr.set(v, w.zero(v.Type()))
+					}()
+				}
+				continue
+			}
+			if k == kReturn {
+				return
+			}
+			if k == kJump {
+				jumped = true
+				break
+			}
+		}
+		if !jumped {
+			return
+		}
 	}
 }
